@@ -672,10 +672,11 @@ def _real_jwe_cbc(args):
     pad = 16 - len(inner) % 16
     ct = [cbc(inner + bytes([pad]) * pad), b"", cbc(b"\x00" * 16), cbc(bytes([16]) * 16)][cbc_shape]
     tag = _h.new(mac_key, hseg + iv + ct + struct.pack(">Q", 8 * len(hseg)), _hl.sha256).digest()[:16]
-    if not v1:
+    tag_ok, unwrap_ok = (v1, v0) if kw else (v0, True)          # verdicts are consumed in call order: unwrap (if any), then the MAC comparison
+    if not tag_ok:
         tag = bytes([tag[0] ^ 1]) + tag[1:]
     tag = [tag, tag[:8], b""][tag_i]
-    if not v0 and ek:
+    if not unwrap_ok and ek:
         ek = bytes([ek[0] ^ 1]) + ek[1:]
     segs = [hseg, _b64(ek) if kw else b"", _b64(iv), _b64(ct), _b64(tag)]
     tok = b".".join(segs)
@@ -692,7 +693,7 @@ def _real_jwe_cbc(args):
         else:
             value["recipients"] = [r]
         return jwe.decrypt_json(value, key, algorithms=ALLOWED)
-    return call, "A128CBC-HS256 token with %s under a %s tag: %r" % (["a well padded", "an EMPTY", "a badly padded", "a padding-only"][cbc_shape] + " ciphertext", "valid" if v1 else "wrong", tok[:200])
+    return call, "A128CBC-HS256 token with %s under a %s tag: %r" % (["a well padded", "an EMPTY", "a badly padded", "a padding-only"][cbc_shape] + " ciphertext", "valid" if tag_ok else "wrong", tok[:200])
 
 
 def replay(func, call):
